@@ -898,17 +898,23 @@ class Program:
     def _conv_index(self):
         """(trait short name, self type) -> workspace impl methods, for the std trampolines
         `str::parse::<T>` -> `<T as FromStr>::from_str`, `T::try_into() -> U` ->
-        `<U as TryFrom<..>>::try_from`, `T::into() -> U` -> `<U as From<..>>::from` (rustc
-        resolves these calls to the blanket impl inside core, which is not walked)."""
+        `<U as TryFrom<..>>::try_from`, `T::into() -> U` -> `<U as From<..>>::from`, and the
+        formatting machinery (`Argument::new_display::<T>` / `T::to_string()` -> `<T as
+        Display>::fmt`) - rustc resolves these calls to generic code inside core/alloc, which is
+        not walked."""
         idx = self.__dict__.get("_convidx")
         if idx is None:
             idx = defaultdict(list)
             rx = re.compile(r"^<(.+) as core::(?:str::traits::(FromStr)|convert::(TryFrom|From)<.*>)>::"
                             r"(from_str|try_from|from)$")
+            rf = re.compile(r"^<(.+) as core::fmt::(Display|Debug|LowerHex|UpperHex)>::fmt$")
             for o in self.by_owner:
                 m = rx.match(o)
                 if m:
                     idx[(m.group(2) or m.group(3), m.group(1))].append(o)
+                m = rf.match(o)
+                if m:
+                    idx[(m.group(2), m.group(1))].append(o)
             self._convidx = idx
         return idx
 
@@ -942,6 +948,20 @@ class Program:
             return idx.get(("TryFrom", ga[1]), [])
         if re.search(r"(core::convert::Into::into|Into<.*>>::into)$", n) and len(ga) >= 2:
             return idx.get(("From", ga[1]), [])
+        # formatting: `format!("{x}")` / `x.to_string()` reach the workspace Display/Debug impl
+        # of x's type through core::fmt's type-erased argument table
+        m = re.search(r"fmt::rt::Argument(::<.*>)?::new_(display|debug|lower_hex|upper_hex)$", n)
+        if m and ga:
+            tr = {"display": "Display", "debug": "Debug", "lower_hex": "LowerHex",
+                  "upper_hex": "UpperHex"}[m.group(2)]
+            out = []
+            for g in ga:
+                g2 = re.sub(r"^&\s*('\{?\w+\}?\s+)?", "", g.strip())
+                out += idx.get((tr, g2), [])
+            return out
+        if re.search(r"(string::ToString::to_string|ToString>::to_string)$", n) and ga:
+            g2 = re.sub(r"^&\s*('\{?\w+\}?\s+)?", "", ga[0].strip())
+            return idx.get(("Display", g2), [])
         return []
 
     def resolve_targets(self, c):
